@@ -303,6 +303,9 @@ func cloneTree(e parser.Expr, clean bool, feats map[string]bool) parser.Expr {
 			return &c
 		case *parser.SubqueryExpr:
 			feats["subquery"] = true
+			if nl, ok := n.Expr.(*parser.NumberLiteral); ok && math.IsInf(nl.Val, 1) {
+				feats["pos_inf"] = true
+			}
 			if clean {
 				// the inner expression in parentheses keeps the tree in the parser's image
 				return &parser.ParenExpr{Expr: cl(n.Expr)}
@@ -317,6 +320,12 @@ func cloneTree(e parser.Expr, clean bool, feats map[string]bool) parser.Expr {
 		case *parser.BinaryExpr:
 			c := *n
 			c.LHS, c.RHS = cl(n.LHS), cl(n.RHS)
+			if nl, ok := n.LHS.(*parser.NumberLiteral); ok && n.Op == parser.POW && math.IsInf(nl.Val, 1) {
+				feats["pos_inf"] = true
+				if clean {
+					c.LHS = &parser.NumberLiteral{Val: 1}
+				}
+			}
 			if n.VectorMatching != nil {
 				vm := *n.VectorMatching
 				if vm.Card != parser.CardOneToOne && len(vm.MatchingLabels) == 0 && !vm.On {
@@ -641,7 +650,7 @@ func (g *gen) postfix() string {
 		}
 		return g.sp() + "offset" + g.osp() + "[" + strings.Join(parts, ",") + g.osp() + "]"
 	case 6, 7:
-		return g.osp() + "@" + g.osp() + g.pick("", "", "-", "+") + g.pick("1.5", "0", "1700000000", "1700000000.123", "12.3456", "0.0005", "2.5e3", "1e18", "1e19", "Inf", "0x10", "3", "1609459200.5")
+		return g.osp() + "@" + g.osp() + g.pick("", "", "-", "+") + g.pick("1.5", "0", "1700000000", "1700000000.123", "12.3456", "0.0005", "2.5e3", "1e19", "Inf", "0x10", "3", "1609459200.5")
 	default:
 		return g.osp() + "@" + g.osp() + g.kwcase(g.pick("start", "end")) + g.osp() + "(" + g.osp() + ")"
 	}
@@ -848,6 +857,7 @@ var witnesses = []witness{
 	{"F-C28d", "group_modifier", "a + ignoring() group_left(x) b"},
 	{"F-C28e", "zero_range", "foo[0s499ms]"},
 	{"F-C28f", "empty_selector", "{}"},
+	{"F-C28g", "pos_inf", "Inf ^ 2"},
 }
 
 func main() {
@@ -865,7 +875,11 @@ func main() {
 
 	seen := map[string]bool{}
 	var pool []string // accepted texts, sources of mutation
-	var queue []string
+	type qitem struct {
+		text string
+		gen  int
+	}
+	var queue []qitem
 	errUnexpected := parser.VerifErrUnexpected()
 
 	// treeRoundTrip: the property on the implementation for one accepted tree. Returns "" when the printed
@@ -890,7 +904,7 @@ func main() {
 		return printed, ""
 	}
 
-	process := func(text, kind string) {
+	process := func(text, kind string, gen int) {
 		if seen[text] {
 			return
 		}
@@ -962,8 +976,9 @@ func main() {
 			}
 		}
 		pool = append(pool, text)
-		if printed != "" && !seen[printed] {
-			queue = append(queue, printed)
+		// the String() of an accepted tree is fed back as a new input (two generations at most)
+		if printed != "" && !seen[printed] && gen < 2 {
+			queue = append(queue, qitem{printed, gen + 1})
 		}
 	}
 
@@ -977,28 +992,28 @@ func main() {
 			}
 		}
 		o.Finding(w.id, outcome)
-		process(w.text, "witness")
+		process(w.text, "witness", 0)
 	}
 	for _, s := range []string{"", " ", "foo", "1", "-1", "+Inf", "a + b * c ^ d ^ e", "-a ^ b", "(a)", "sum(a)", "sum by (a, b) (x)", "topk(3, x)",
 		"foo{a=\"b\"}[5m] offset 1h @ 1.5", "a and on (x) group_left (y) b", "# c\nfoo", "rate(x[5m])", "\"s\"", "{a=\"b\"}", "a - -1", "-(a)", "- - a", "2 ^ -5"} {
-		process(s, "seed")
+		process(s, "seed", 0)
 	}
 	for o.N < *n {
 		for len(queue) > 0 && o.N < *n {
 			t := queue[0]
 			queue = queue[1:]
-			process(t, "printed")
+			process(t.text, "printed", t.gen)
 		}
 		switch k := g.r.Intn(100); {
 		case k < 55:
-			process(g.expr(1+g.r.Intn(3)), "structured")
+			process(g.expr(1+g.r.Intn(3)), "structured", 0)
 		case k < 90:
 			if len(pool) == 0 {
 				continue
 			}
-			process(g.mutate(pool[g.r.Intn(len(pool))]), "mutated")
+			process(g.mutate(pool[g.r.Intn(len(pool))]), "mutated", 0)
 		default:
-			process(g.garbage(), "garbage")
+			process(g.garbage(), "garbage", 0)
 		}
 	}
 }
